@@ -673,47 +673,48 @@ def _refine(sig, traps_glob, traps_unseeded):
 # ---- the hash-seed aspect: the same operation in two FRESH interpreters that differ only in PYTHONHASHSEED.
 # Iteration over a set / dict of strings, id()- or hash()-based ordering are hidden state a single process cannot show.
 HASH_SEEDS = ("101", "202")
-_HASH_FUT = {}
 
 
 def _hash_run(core):
-    import subprocess
-    env = dict(os.environ)
-    outs = []
-    procs = []
-    for hs in HASH_SEEDS:
-        env2 = dict(env, PYTHONHASHSEED=hs)
-        procs.append(subprocess.Popen([sys.executable, "-W", "ignore", os.path.join(os.path.dirname(os.path.abspath(__file__)), "c18_worker.py")],
-                                      stdin=subprocess.PIPE, stdout=subprocess.PIPE, stderr=subprocess.PIPE, env=env2, text=True))
-    for pr in procs:
-        try:
-            so, se = pr.communicate(json.dumps(core), timeout=300)
-        except subprocess.TimeoutExpired:
-            pr.kill()
-            so, se = "", "timeout"
-        line = [l for l in so.splitlines() if l.startswith("OUT:")]
-        outs.append(line[0][4:] if line else "worker failed: " + se[-300:])
-    return outs
+    """synchronously, for a replay: this process holds no HDF5 file while it forks"""
+    import c18_pool
+    return c18_pool.run_pair(core)
+
+
+_POOL = dict(proc=None, got={})
 
 
 def prefetch_hash(descs):
-    """start the subprocess pairs of all hash-seed cases of this run in the background (8 pairs at a time)"""
-    from concurrent.futures import ThreadPoolExecutor
-    todo = [core_of(d) for d in descs if d.get("aspect") == "hash-seed"]
+    """start ONE launcher process (harness/c18_pool.py) for all hash-seed cases of this run, before any case runs:
+    the checking process never forks while it has HDF5 files open (see c18_pool.py)"""
+    import subprocess
+    todo = []
+    for d in descs:
+        if d.get("aspect") == "hash-seed":
+            core = core_of(d)
+            if core not in todo:
+                todo.append(core)
     if not todo:
         return
-    ex = ThreadPoolExecutor(max_workers=8)
-    for core in todo:
-        key = json.dumps(core, sort_keys=True)
-        if key not in _HASH_FUT:
-            _HASH_FUT[key] = ex.submit(_hash_run, core)
-    ex.shutdown(wait=False)
+    pr = subprocess.Popen([sys.executable, "-W", "ignore", os.path.join(os.path.dirname(os.path.abspath(__file__)), "c18_pool.py")],
+                          stdin=subprocess.PIPE, stdout=subprocess.PIPE, text=True)
+    pr.stdin.write(json.dumps(todo))
+    pr.stdin.close()
+    _POOL["proc"], _POOL["want"] = pr, set(json.dumps(c, sort_keys=True) for c in todo)
 
 
 def hash_outputs(core):
     key = json.dumps(core, sort_keys=True)
-    fut = _HASH_FUT.get(key)
-    return fut.result() if fut is not None else _hash_run(core)
+    pr = _POOL["proc"]
+    if pr is None or key not in _POOL.get("want", ()):
+        return _hash_run(core)
+    while key not in _POOL["got"]:
+        line = pr.stdout.readline()
+        if not line:
+            raise RuntimeError("C18 hash-seed launcher ended before answering " + key[:120])
+        j = json.loads(line)
+        _POOL["got"][j["key"]] = j["outs"]
+    return _POOL["got"][key]
 
 
 def judge(desc):
